@@ -34,3 +34,44 @@ memr('Position', reach=NOEXC)
 memr('Seek'); memr('SeekForward'); memr('SeekBackward')
 memr('Slice2')
 memr('Slice1', replace=['MemoryReader_Slice2', 'MemoryReader_Position', 'MemoryReader_SeekForward'])
+
+# ---- U-MEMW (C14: fixed-buffer writer)
+def memw(fn, reach=None, replace=()):
+    G('memw.' + fn, ['C14'], 'memw', 'MemoryWriter_' + fn, replace=list(replace), reach=reach if reach is not None else ['normal exit', 'exceptional exit'],
+      replay=dict(MEMR_REPLAY, case='MemoryWriter_' + fn))
+memw('ctor', reach=NOEXC); memw('WriteImplementation'); memw('Length', reach=NOEXC); memw('Position', reach=NOEXC)
+memw('Seek'); memw('SeekForward', replace=['MemoryWriter_Seek']); memw('SeekBackward', replace=['MemoryWriter_Seek'])
+
+# ---- U-SLICE (SliceReader<W> |= K_R given W |= K_W)
+WS = ['Ws_Read', 'Ws_ReadPartial', 'Ws_Length', 'Ws_Position', 'Ws_Seek', 'Ws_SeekForward', 'Ws_SeekBackward', 'Ws_copy']
+def slice_(fn, reach=None, replace=(), props=('C12', 'C13')):
+    G('slice.' + fn, list(props), 'slice', 'SliceReader_' + fn, replace=WS + list(replace), reach=reach if reach is not None else ['normal exit', 'exceptional exit'],
+      trusted=['K_W (contracts/kr.h): assumed contract of the wrapped stream type W; proved for MemoryReader, assumed for FileReader (std::ifstream)'])
+slice_('Initialize'); slice_('ctor', replace=['SliceReader_Initialize']); slice_('copyctor', reach=NOEXC, replace=['SliceReader_Initialize'])
+slice_('ReadImplementation'); slice_('ReadPartial', reach=NOEXC, replace=['SliceReader_Position'])
+slice_('Length', reach=NOEXC); slice_('Position', reach=NOEXC)
+slice_('Seek'); slice_('SeekForward', replace=['SliceReader_Position']); slice_('SeekBackward', replace=['SliceReader_Position'])
+slice_('Slice2', replace=['SliceReader_ctor']); slice_('Slice1', replace=['SliceReader_Slice2', 'SliceReader_Position', 'SliceReader_SeekForward'])
+
+# ---- U-BIDI
+RD = ['Rd_Read', 'Rd_ReadPartial', 'Rd_Length', 'Rd_Position', 'Rd_Seek', 'Rd_SeekForward', 'Rd_SeekBackward']
+KR_TRUST = 'K_R (contracts/kr.h) as the contract of the abstract Stream::Reader interface: proved for MemoryReader and SliceReader<W>; virtual dispatch bound statically to the contract'
+G('bidi.Read', ['C12'], 'bidi', 'Reader_Read', replace=RD, trusted=[KR_TRUST])
+G('bidi.Peek', ['C12', 'C09'], 'bidi', 'BidirectionalReader_Peek', replace=RD, trusted=[KR_TRUST])
+G('bidi.SeekBeginning', ['C12'], 'bidi', 'BidirectionalReader_SeekBeginning', replace=RD, reach=NOEXC, trusted=[KR_TRUST])
+G('bidi.SeekEnd', ['C12'], 'bidi', 'ForwardReader_SeekEnd', replace=RD, reach=NOEXC, trusted=[KR_TRUST])
+
+# --------------------------------------------------------------------------- what is claimed (bin/mkmanifest)
+CLAIMS = {}
+NOT_APPLICABLE = {}
+def claim(pid, text, note):
+    CLAIMS[pid] = {'text': text, 'note': note}
+
+claim('C12', 'Every MemoryReader and SliceReader<W> operation is proved against the stream contract K_R (exact bytes, exact advance, atomic refusal, position <= length) for all 64-bit arguments and unbounded lengths; Peek/SeekBeginning/SeekEnd/Read proved over any K_R reader; histories follow by induction over the invariant.',
+      'Trusted: CBMC/DFCC, the extraction rules, K_W for the wrapped stream of a slice (proved for MemoryReader, assumed for FileReader/std::ifstream). Typed container/string helpers: see evidence not_decided.')
+claim('C13', 'Slice construction, containment (128-bit comparison, no wrap), frame conditions (parent untouched; only the own position assigned) and K_R for SliceReader<W> over an arbitrary K_W parent are proved; nesting follows by induction because a slice itself satisfies K_R.',
+      'Trusted: K_W for file-backed parents (std::ifstream), independence of two OS file descriptions.')
+claim('C14', 'MemoryWriter operations proved over the full 64-bit domain: a write/seek succeeds iff the mathematical target lies in the buffer, modifies exactly [offset, offset+n) (assigns clause), and otherwise changes nothing.',
+      'Trusted: CBMC/DFCC, extraction rules. DynamicMemoryWriter / FileWriter / copy loop: see evidence groups and not_decided.')
+claim('C19', 'IsPowerOf2 exact for all 2^32 inputs against popcount==1; Log2OfPowerOf2 inverse of 1<<k for all 32 powers.',
+      'Trusted: CBMC. std::filesystem-based path helpers are not decided (no repository code to put under contract).')
